@@ -43,14 +43,29 @@ theorem denotation (t : Str) (hs : goStr t = t) (rt : RT) (hp : parseText t = so
 theorem string_literal_eq (s : List Item) (h : loneEsc s = false) : goCombine s = s.map Item.unit :=
   goCombine_eq s h
 
-/-- `reviver_order`: for EVERY reviver — also one that deletes another property of its holder while
-    it runs — and every parsed value, builtinJSONReviveWalk makes exactly the calls ES5 15.12.2 Walk
-    makes: bottom-up, with the keys of an object taken before any is walked (a property deleted
-    meanwhile is still visited, with undefined), holder/key arguments, property or element deleted on
-    undefined and (re)defined otherwise; same order, same result. -/
-theorem reviver_order (f : Reviver) (fuel : Nat) (name : Str) (v : RV) :
-    reviveM f fuel name v = Spec.revive f fuel name v :=
-  reviveM_eq f fuel name v
+/-- `reviver_order`: for EVERY reviver — also one that changes its holder while it runs (deletes or
+    adds a sibling key, sets the array's length, pushes, pops, deletes or assigns an element ahead or
+    behind) — and every parsed value, builtinJSONReviveWalk makes exactly the calls ES5 15.12.2 Walk
+    makes: bottom-up; for an array the indices below the length READ ONCE before the loop, for an object
+    the keys taken before any is walked (a property or element gone meanwhile is still visited, with
+    undefined; one added meanwhile is not); holder/key arguments; deleted on undefined and (re)defined
+    otherwise; same order, same result. -/
+theorem reviver_order (f : Reviver) (fuel hk : Nat) (name : Str) (v : RV) :
+    reviveM f fuel hk name v = Spec.revive f fuel hk name v :=
+  reviveM_eq f fuel hk name v
+
+/-- a reviver that pushes onto its holder on every call terminates after the original elements:
+    the array loop makes at most `len - i` reviver calls for its own level whatever the reviver does
+    (here: the loop at index `len` is over) -/
+theorem revive_array_stops (f : Reviver) (fuel len : Nat) (cur : RVs) :
+    reviveArrM f (fuel + 1) len len cur = (cur, []) := by
+  simp [reviveArrM]
+
+/-- shrinking the holder: `[1,2,3,4]` with a reviver that sets `this.length = 2` when called for "1":
+    the calls are 0,1,2,3 (then the root) and the result is [1,2,hole,hole] -/
+example : (reviveTop (fun k v => ⟨some v, if k = [49] then .setLen 2 else .none⟩) 9
+      (.arr (.cons (.num .nan) (.cons .null (.cons (.bool true) (.cons (.bool false) .nil)))))).2
+    = [[65, 48], [65, 49], [65, 50], [65, 51], [79]] := by decide +kernel
 
 /-! ## JSON.stringify: the rule table -/
 
